@@ -52,6 +52,30 @@ PROPS = {
 ALLFAM = ["mix", "mix", "mix", "pause", "jockey", "slotpre", "renegesched", "schedblock", "infblock", "ppsched", "ps", "core1", "tandem", "prio", "preempt", "cls", "clsren", "renege", "route", "sched", "schedpre", "schedblock",
           "slot", "ccw", "trk", "reroute", "stopcount"]
 
+# vacuity gates (DESIGN section 5): witness tags that the validated traces of a check must contain at least once,
+# otherwise the property's antecedents were never exercised and the check exits 2 instead of "passing"
+GATES = {
+    "C01": ["release", "block", "unblock", "reject", "renege", "preempt", "ccw", "batch>1"],
+    "C02": ["same-instant", "rec:service", "rec:interrupted service", "rec:renege", "rec:rejection", "zero-service"],
+    "C03": ["route-internal", "unblock", "rec:interrupted service", "rec:renege"],
+    "C04": ["attach", "detach", "block", "kill", "preempt"],
+    "C05": ["choose-among-many", "shift", "preempt", "unblock"],
+    "C06": ["reject", "batch>1", "block"],
+    "C07": ["block", "unblock", "cascade", "tie-ind"],
+    "C08": ["choose-multi-prio", "choose-among-many", "preempt", "ccw"],
+    "C09": ["route-internal", "class-changed", "routefn"],
+    "C10": ["ia", "batch>1", "svc", "restart-after-preemption"],
+    "C11": ["preempt", "restart-after-preemption"],
+    "C12": ["shift", "kill", "interrupt", "slot"],
+    "C13": ["pat", "renege", "bu", "baulk"],
+    "C14": ["ev:arrival", "ev:end_service", "ev:shift_change", "ev:renege", "ev:class_change", "ev:slotted_service"],
+    "C16": ["pause"],
+    "C17": ["block", "unblock", "class-changed", "ccw", "renege"],
+    "C18": ["ddl", "block"],
+    "C19": ["ev:end_service", "same-instant"],
+    "C20": ["svc", "rec:service"],
+}
+
 TIERS = {
     "quick": dict(traces=640, max_events=60, mc_timeout=240, batch=10),
     "thorough": dict(traces=3000, max_events=200, mc_timeout=1500, batch=40),
@@ -310,6 +334,8 @@ def run_check(prop, tier, seed):
         for w in v["wits"]:
             wit[w] = wit.get(w, 0) + 1
     cov["witnesses"] = wit
+    missing = [w for w in GATES.get(prop, []) if wit.get(w, 0) == 0]
+    cov["vacuity_gate"] = {"required": GATES.get(prop, []), "missing": missing}
     cov["drift_traces"] = len(drift)
     for t, v in drift[:5]:
         log("DRIFT family=%s seed=%s %s" % (t["family"], t["seed"], json.dumps(v["drift"])[:300]))
@@ -357,6 +383,9 @@ def run_check(prop, tier, seed):
         log("KNOWN-FINDING: property=%s %s %s (e.g. clause %s, family %s seed %s)" %
             (prop, f["id"], f["what"], clause, t["family"], t["seed"]))
     rc = 0
+    if missing and not viol:
+        log("MACHINERY-ERROR vacuity gate: no validated trace witnessed %s" % missing)
+        rc = 2
     if unjudged and not viol:
         # nothing else was found and some traces could not be judged at all: the machinery is not total here
         log("MACHINERY-ERROR %d traces could not be judged (see UNJUDGED lines)" % len(unjudged))
